@@ -35,7 +35,7 @@ KEYS = {
     "defer-under-typed-list-dropped":
         "a @defer below a list field that was selected under a type condition on an abstract type is never announced nor delivered (deferInfoCollector.outermostListFieldIndex gives up, the descriptor path runs through the list and the anchor reads as dead)",
     "defer-merged-mount-wrong-anchor":
-        "a @defer fragment whose top-level fields are all also selected outside the fragment (merged into the primary response) and whose own fields sit in two branches below: the descriptor path is that of the first deeper selection set, the items of the other branch carry a subPath relative to the true mount and address nothing",
+        "a @defer fragment whose top-level fields are all also selected outside the fragment (merged into the primary response) is anchored below its true mount: when the field carrying the anchor is null the fragment and its nested defers (mounted above the null) are cancelled; the other half (items of other branches with a subPath that does not compose with the pending path) was repaired by 98fef79",
     "defer-planner-empty-selection":
         "planning fails with 'selection set on path ... is empty' only when @defer is present (a composite field of a type served by two subgraphs whose merged selection set has direct children in two different active @defer fragments)",
 }
@@ -62,15 +62,17 @@ def classify(case, detail):
             return "defer-under-typed-list-dropped"
         return None
     if d.startswith("descriptor_anchor"):
-        # plan level: the fields of one defer surface in several selection sets (its own top-level fields were
-        # merged away) and the descriptor keeps the path of the first; known only when the model reproduces it
-        if "[quirk=first-occurrence]" in d:
+        # plan level, half (a) of defer-merged-mount-wrong-anchor (a descriptor path that is not a prefix of every
+        # selection set of its defer): repaired by 98fef79 -- its return is a violation
+        return None
+    if d.startswith("descriptor_parent"):
+        # plan level, half (b): the parent is anchored below its mount, above which a nested defer sits; known only
+        # when the model reproduces both descriptor paths
+        if "[quirk=below-mount]" in d:
             return "defer-merged-mount-wrong-anchor"
         return None
     if d.startswith("reconstruct") and "addresses nothing in the data delivered so far" in d:
-        # end to end: the pending path is one of the anchors the plan-level check found inconsistent
-        if "diag=anchor-first-occurrence]" in d:
-            return "defer-merged-mount-wrong-anchor"
+        # half (a) end to end (pending path ++ subPath addresses nothing): repaired, a violation if it returns
         return None
     if d.startswith("reconstruct"):
         m = re.search(r"\[d0=(\w+) silent=(\d+) failed=(\d+) monoerr=(\d+) diag=([\w+-]*)\]", d)
@@ -87,7 +89,7 @@ def classify(case, detail):
             return None
         if "typed-list" in tags:
             return "defer-under-typed-list-dropped"
-        if "anchor-first-occurrence" in tags:
+        if "anchor-below-mount" in tags:
             # the member belongs to a defer cancelled by a dead ancestor anchor that lies below that ancestor's mount
             return "defer-merged-mount-wrong-anchor"
         # the losing fragment of a merged field may be left without any field: it is then completed with an
